@@ -133,17 +133,92 @@ def generate() -> dict:
         fresh = copy_is_fresh(mod) or uses_deepcopy_directly
     except Exception as e:  # noqa: BLE001 - unknown shape: an opaque mutation, the obligation fails
         stmts, fresh, note = ["mutate"], False, f"{type(e).__name__}: {e}"
-    # the nested callback must not rebind / mutate through the caller's object either: it only sees the local
-    text = HEADER.format(src="src/spox/_public.py", tool="translator/inline_facts.py") + (
+    swap, swap_note = swap_ir()
+    note = "; ".join(x for x in (note, swap_note) if x)
+    text = HEADER.format(src="src/spox/_public.py, src/spox/_adapt.py", tool="translator/inline_facts.py") + (
         "\nimport SpoxModel.Model.Inline\n\nnamespace Generated.InlineFacts\nopen Inline\n\n"
         "/-- top-level statements of `spox._public.inline`, classified by what they may do to `model` -/\n"
         f"def stmts : List Stmt := {lean_list(['.' + s for s in stmts])}\n\n"
         "/-- `_copy_model` returns a fresh `ModelProto` filled by `CopyFrom` (or a deepcopy) -/\n"
         f"def copyFresh : Bool := {lean_bool(fresh)}\n\n"
+        "/-- statements of `spox._adapt.adapt_inline` after the no-conversion early returns, as far as\n"
+        "    `node.model` is concerned -/\n"
+        f"def swapIR : List SStmt := {swap}\n\n"
         "end Generated.InlineFacts\n"
     )
     write_if_changed(GEN / "InlineFacts.lean", text)
-    return {"stmts": stmts, "copyFresh": fresh, "note": note}
+    return {"stmts": stmts, "copyFresh": fresh, "swapIR": swap, "note": note}
+
+
+def _touches_field(node: ast.AST, obj: str, field: str) -> bool:
+    return any(
+        isinstance(n, ast.Attribute) and n.attr == field and isinstance(n.value, ast.Name) and n.value.id == obj
+        for n in ast.walk(node)
+    )
+
+
+def swap_ir():
+    """IR of `adapt_inline` w.r.t. the field `node.model` (first parameter's `.model`)."""
+    try:
+        mod = parse("src/spox/_adapt.py")
+        fn = next((f for f in mod.body if isinstance(f, ast.FunctionDef) and f.name == "adapt_inline"), None)
+        if fn is None or not fn.args.args:
+            raise LookupError("no function `adapt_inline(node, ...)` in src/spox/_adapt.py")
+        obj = fn.args.args[0].arg
+        saved: set = set()
+
+        def stmt(s: ast.stmt) -> str:
+            if isinstance(s, ast.Try):
+                if s.handlers or s.orelse:
+                    return ".opaque"
+                return f".tryFinally {block(s.body)} {block(s.finalbody)}"
+            if isinstance(s, ast.If):
+                # both arms are executed "in sequence" conservatively: any touch inside counts
+                inner = [stmt(x) for x in s.body + s.orelse]
+                if all(x == ".other" for x in inner):
+                    return ".other"
+                if not s.orelse:
+                    return "@" + block(s.body)  # spliced by the caller (the conversion branch)
+                return ".opaque"
+            if isinstance(s, ast.Assign) and len(s.targets) == 1:
+                t, v = s.targets[0], s.value
+                if isinstance(t, ast.Name) and isinstance(v, ast.Attribute) and v.attr == "model" \
+                        and isinstance(v.value, ast.Name) and v.value.id == obj:
+                    saved.add(t.id)
+                    return ".saveBase"
+                if isinstance(t, ast.Attribute) and t.attr == "model" and isinstance(t.value, ast.Name) and t.value.id == obj:
+                    if isinstance(v, ast.Name) and v.id in saved:
+                        return ".restoreBase"
+                    if isinstance(v, ast.Name):
+                        return ".setTarget"
+                    return ".opaque"
+                if _touches_field(t, obj, "model"):
+                    return ".opaque"
+                if any(isinstance(c, ast.Call) and isinstance(c.func, ast.Attribute) and c.func.attr == "to_onnx"
+                       and isinstance(c.func.value, ast.Name) and c.func.value.id == obj for c in ast.walk(v)):
+                    return ".emit"
+                return ".other"
+            if isinstance(s, (ast.Delete, ast.AugAssign, ast.AnnAssign)) and _touches_field(s, obj, "model"):
+                return ".opaque"
+            if isinstance(s, (ast.With, ast.For, ast.While)) and _touches_field(s, obj, "model"):
+                return ".opaque"
+            return ".other"
+
+        def block(body) -> str:
+            out = []
+            for s in body:
+                if isinstance(s, ast.Expr) and isinstance(s.value, ast.Constant):
+                    continue
+                x = stmt(s)
+                if x.startswith("@"):
+                    out.append(x[1:].strip("[]"))
+                else:
+                    out.append(x)
+            return "[" + ", ".join(o for o in out if o) + "]"
+
+        return block(fn.body), ""
+    except Exception as e:  # noqa: BLE001
+        return "[.opaque]", f"{type(e).__name__}: {e}"
 
 
 if __name__ == "__main__":
